@@ -21,8 +21,70 @@ func ruleC02(prog *Program, rep *Report) {
 	ruleSurrogates(prog, rep)
 	rulePoolPut(prog, rep, "oj.Parser", "gen.Parser", "sen.Parser", "oj.Tokenizer", "oj.Validator", "sen.Tokenizer") // a parser put back before its last use mixes two callers' documents
 	rep.Rules = append(rep.Rules, "A-events: value/token events of the four JSON front-ends agree with the reference at every byte (kind of each value: null/true/false/string/number/container, key vs value) - see C03")
+	rep.Rules = append(rep.Rules, "N-mirror: once a number no longer fits the accumulators its bytes are collected as text (Number.BigBuf); for every reachable step of the JSON front-ends (and of the SEN front-ends on JSON numbers) in which the reference is inside a number before and after the byte, the arm either adds the dispatched byte to BigBuf (directly, or through a Number method whose first case does so when the buffer is in use) or is on a path that tested the buffer to be empty: no sign, digit, point or exponent marker of a big number is dropped")
+	exploreMirror = numberMirrorFns(prog)
+	if len(exploreMirror) < 3 {
+		rep.Errorf("N-mirror: found %d Number methods that mirror their byte into BigBuf (floor 3): anchors did not resolve", len(exploreMirror))
+	}
 	results := exploreFrontEnds(prog, jsonFrontEnds, []bool{false}, false)
 	applyParseResults(rep, results, union(kindsEvents, map[string]bool{"stale-scratch": true}), "A-events", 18)
+	reportKinds(rep, results, map[string]bool{"big-unmirrored": true}, "N-mirror")
+	sres := exploreFrontEnds(prog, senFrontEnds, []bool{false}, false, true)
+	exploreMirror = nil
+	applyParseResults(rep, sres, map[string]bool{"big-unmirrored": true}, "N-mirror", 12)
+}
+
+// exploreMirror, when set, makes exploreOne follow the number text buffer (N-mirror).
+var exploreMirror map[*types.Func]bool
+
+// numberMirrorFns: methods of gen.Number with one byte parameter whose body is a
+// switch with a first case `0 < len(n.BigBuf)` that appends the parameter to n.BigBuf.
+func numberMirrorFns(prog *Program) map[*types.Func]bool {
+	out := map[*types.Func]bool{}
+	pk := prog.Pkg("gen")
+	if pk == nil {
+		return out
+	}
+	info := pk.TypesInfo
+	for _, f := range pk.Syntax {
+		for _, d := range f.Decls {
+			fd, ok := d.(*ast.FuncDecl)
+			if !ok || fd.Body == nil || fd.Recv == nil || len(fd.Recv.List) != 1 || len(fd.Recv.List[0].Names) != 1 {
+				continue
+			}
+			if strings.ReplaceAll(types.ExprString(fd.Recv.List[0].Type), "*", "") != "Number" {
+				continue
+			}
+			if fd.Type.Params == nil || len(fd.Type.Params.List) != 1 || len(fd.Type.Params.List[0].Names) != 1 {
+				continue
+			}
+			param := fd.Type.Params.List[0].Names[0].Name
+			recv := fd.Recv.List[0].Names[0].Name
+			for _, st := range fd.Body.List {
+				sw, ok := st.(*ast.SwitchStmt)
+				if !ok || sw.Tag != nil || len(sw.Body.List) == 0 {
+					continue
+				}
+				cc := sw.Body.List[0].(*ast.CaseClause)
+				if len(cc.List) != 1 || strings.ReplaceAll(types.ExprString(cc.List[0]), " ", "") != "0<len("+recv+".BigBuf)" {
+					continue
+				}
+				for _, bs := range cc.Body {
+					as, ok := bs.(*ast.AssignStmt)
+					if !ok || len(as.Lhs) != 1 || len(as.Rhs) != 1 {
+						continue
+					}
+					want := recv + ".BigBuf=append(" + recv + ".BigBuf," + param + ")"
+					if strings.ReplaceAll(types.ExprString(as.Lhs[0])+"="+types.ExprString(as.Rhs[0]), " ", "") == want {
+						if fn, ok := info.Defs[fd.Name].(*types.Func); ok {
+							out[fn] = true
+						}
+					}
+				}
+			}
+		}
+	}
+	return out
 }
 
 // ---------------------------------------------------------------- accumulators
